@@ -65,6 +65,10 @@ class InitMethod(MethodDescriptor):
                         if not instance_attr_spec.init:
                             # Not a constructor argument of the parent.
                             continue
+                        if kwargs.get(attr, MISSING) is MISSING:
+                            # (The key parameter of the generated constructor
+                            # defaults to `MISSING`: not a value to pass on.)
+                            kwargs.pop(attr, None)
                         if attr in kwargs:
                             # The parent constructor will not copy (it sees
                             # that it is not the instance's own class), so the
